@@ -125,3 +125,11 @@ case(H + "alias_loop", params={"ctx": Ref("HCtx"), "xs": List(STR)}, returns=INT
 # a container taken out of another container (`row = ctx.rows[k]`) and mutated: no write-through model -> refused
 case(H + "alias_item", params={"ctx": Ref("HCtx"), "k": STR, "x": INT}, returns=INT, modifies=["HCtx.rows"], requires=["k in ctx.rows"],
      expect="unsupported", msg="aliased")
+
+# ---- getattr / setattr with a loop variable over a LITERAL set of names: unrolled automatically ----------------------------------------------
+cls("HInfo", fields={"v": Opt(INT), "w": Opt(INT)}, repo=H + "HInfo")
+case(H + "copy_attrs", params={"src": Ref("HInfo"), "dst": Ref("HInfo")}, modifies=["dst.v", "dst.w"], requires=["src is not dst"],
+     ensures={"v": "dst.v == (src.v if src.v is not None else old(dst.v))", "w": "dst.w == (src.w if src.w is not None else old(dst.w))"},
+     canaries={"always": "dst.v == src.v", "never": "dst.w == old(dst.w)"},
+     gen=lambda rng: {"s": [rng.choice([None, 1, 2]), rng.choice([None, 3])], "d": [rng.choice([None, 7]), rng.choice([None, 8])]},
+     build=lambda d: {"src": M.HInfo(*d["s"]), "dst": M.HInfo(*d["d"])})
